@@ -12,6 +12,7 @@ import (
 	"bytes"
 	"context"
 	"crypto/rand"
+	"crypto/sha256"
 	"encoding/binary"
 	"encoding/json"
 	"errors"
@@ -183,6 +184,20 @@ func genReport(t *simrt.Tape, cfg *refcfg.Config, big bool) *report {
 }
 
 // listTree lists every regular file under dir (relative names).
+// treeHash lists the files below dir with a hash of their content.
+func treeHash(dir string) map[string][32]byte {
+	out := map[string][32]byte{}
+	filepath.Walk(dir, func(p string, info os.FileInfo, err error) error {
+		if err == nil && !info.IsDir() {
+			rel, _ := filepath.Rel(dir, p)
+			data, _ := os.ReadFile(p)
+			out[rel] = sha256.Sum256(data)
+		}
+		return nil
+	})
+	return out
+}
+
 func listTree(dir string) []string {
 	var out []string
 	filepath.Walk(dir, func(p string, info os.FileInfo, err error) error {
@@ -455,11 +470,24 @@ func scenarioC12(c *hlib.RunCtx) *hlib.Violation {
 			wantValid, why = false, "method "+method
 		}
 		before := listTree(c.Dir)
+		beforeH := treeHash(c.Dir)
 		// The path is not part of the property's quantifier (methods and bodies):
 		// a clean path under the route, as the uploader builds it.
 		urlWeek := r.Week
 		if !validDate(urlWeek) {
 			urlWeek = "2024-01-01"
+		}
+		// The object is named by the report's week, not by the request path: a
+		// client may post to another week's path, or to no week at all.
+		switch t.Biased(5, 3, 4) {
+		case 1:
+			urlWeek = "2023-12-25"
+		case 2:
+			urlWeek = "x/y"
+		case 3:
+			urlWeek = ""
+		case 4:
+			urlWeek = "2024-01-01/extra"
 		}
 		req := httptest.NewRequest(method, "/upload/"+urlWeek, fr)
 		req.ContentLength = -1
@@ -489,6 +517,18 @@ func scenarioC12(c *hlib.RunCtx) *hlib.Violation {
 			}
 			model[name] = r
 			accepted = append(accepted, r)
+			// every other object keeps its bytes
+			afterH := treeHash(c.Dir)
+			stored := filepath.Join("storage", "uploaded", filepath.FromSlash(name))
+			for n, h := range beforeH {
+				if n != stored && afterH[n] != h {
+					fail("other-object-changed", "storing %s changed the content of %s", name, n)
+					break
+				}
+			}
+			if viol != nil {
+				break
+			}
 			data, err := os.ReadFile(filepath.Join(bucketDir, filepath.FromSlash(name)))
 			if err != nil {
 				fail("object-missing", "valid report answered 200 but object %s does not exist: %v", name, err)
@@ -519,6 +559,10 @@ func scenarioC12(c *hlib.RunCtx) *hlib.Violation {
 			}
 			if !reflect.DeepEqual(before, after) {
 				fail("invalid-stored", "request %q (%s) was answered %d but the storage changed: %v -> %v", why, method, rec.Code, before, after)
+				break
+			}
+			if !reflect.DeepEqual(beforeH, treeHash(c.Dir)) {
+				fail("invalid-stored", "request %q (%s) was answered %d but the content of a stored object changed", why, method, rec.Code)
 				break
 			}
 		}
